@@ -69,6 +69,7 @@ class Dtd:
     ns: tuple | None = None                      # ("default" | "prefix", "root" | "all"): where the xmlns #FIXED attribute is declared
     features: list = field(default_factory=list)
     root_replaced: bool = False                  # the root content model is no longer the base sequence (+ appended particles)
+    extra_ns: dict = field(default_factory=dict)  # further prefixes declared (#FIXED) on the root, used by attributes only
 
     @property
     def namespace(self) -> str | None:
@@ -142,6 +143,8 @@ def render(d: Dtd) -> str:
         x = xmlns_attdef(d)
         if x is not None and (d.ns[1] == "all" or e.name == d.root):
             attrs.insert(0, x)
+        if e.name == d.root:
+            attrs[0:0] = [AttDef(f"xmlns:{p}", "CDATA", "FIXED", u) for p, u in d.extra_ns.items()]
         if attrs:
             out.append(f"<!ATTLIST {d.qn(e.name)} " + "\n          ".join(render_attdef(a) for a in attrs) + ">")
     return "\n".join(out) + "\n"
@@ -164,10 +167,10 @@ FEATURES = [
     # element declarations / content models
     "empty-child", "empty-child-star", "any-child", "mixed-child", "mixed-root", "pcdata-root", "pcdata-star", "occurs-star", "occurs-plus",
     "seq-optional", "seq-star", "seq-plus", "seq-with-occurs", "choice", "choice-optional", "choice-star", "choice-plus", "choice-branch-repeats",
-    "choice-of-sequences", "seq-in-choice", "root-choice", "nested-element", "name-twice", "recursion",
+    "choice-of-sequences", "seq-in-choice", "root-choice", "nested-element", "name-twice", "recursion", "choice-three-star",
     # attribute lists
     "attr-required", "attr-default", "attr-fixed", "attr-default-special", "attr-id-idref", "attr-nmtoken", "attr-nmtokens-default", "attr-enum",
-    "attr-enum-default", "attr-enum-fixed", "attr-child-default", "attr-enum-two-elements", "attr-xml-lang",
+    "attr-enum-default", "attr-enum-fixed", "attr-child-default", "attr-enum-two-elements", "attr-xml-lang", "attr-default-empty", "attr-foreign-prefixes",
     # xmlns declarations
     "xmlns-default-root", "xmlns-default-all", "xmlns-prefix-root", "xmlns-prefix-all",
 ]
@@ -177,7 +180,7 @@ ROOT_REPLACING = {"mixed-root", "pcdata-root", "root-choice"}
 # features that append a particle to (or change an item of) the root sequence
 ROOT_SEQ = {"empty-child", "empty-child-star", "any-child", "mixed-child", "pcdata-star", "occurs-star", "occurs-plus", "seq-optional", "seq-star", "seq-plus",
             "seq-with-occurs", "choice", "choice-optional", "choice-star", "choice-plus", "choice-branch-repeats", "choice-of-sequences", "seq-in-choice",
-            "nested-element", "name-twice", "recursion"}
+            "nested-element", "name-twice", "recursion", "choice-three-star"}
 CONFLICTS = [
     {"occurs-plus", "name-twice"},          # (a+, b?, a) is not deterministic
     {"xmlns-default-root", "xmlns-default-all", "xmlns-prefix-root", "xmlns-prefix-all"},
@@ -242,6 +245,10 @@ def apply_feature(d: Dtd, feat: str) -> None:
     elif feat == "choice-star":
         d.decl("x3"), d.decl("y3")
         seq.items.append(Grp("choice", [Name("x3"), Name("y3")], "*"))
+    elif feat == "choice-three-star":
+        # libxml2 nests a choice of three or more alternatives to the right: (x6|(y6|z6))*
+        d.decl("x6"), d.decl("y6"), d.decl("z6", EMPTY)
+        seq.items.append(Grp("choice", [Name("x6"), Name("y6"), Name("z6")], "*"))
     elif feat == "choice-plus":
         d.decl("x4"), d.decl("y4", EMPTY)
         seq.items.append(Grp("choice", [Name("x4"), Name("y4")], "+"))
@@ -299,6 +306,13 @@ def apply_feature(d: Dtd, feat: str) -> None:
         d.elems["b"].attrs.append(AttDef("kind", "ENUM", "DEFAULT", "k3", enum=["k2", "k3"]))
     elif feat == "attr-xml-lang":
         root.attrs.append(AttDef("xml:lang", "NMTOKEN", "DEFAULT", "en"))
+    elif feat == "attr-default-empty":
+        root.attrs.append(AttDef("unit", "CDATA", "DEFAULT", ""))
+    elif feat == "attr-foreign-prefixes":
+        # three prefixes declared next to each other on the root, attributes in the second and third namespace
+        d.extra_ns = {"x": "urn:x", "y": "urn:y", "z": "urn:z"}
+        root.attrs.append(AttDef("y:lang", "CDATA", "IMPLIED"))
+        root.attrs.append(AttDef("z:mode", "CDATA", "DEFAULT", "m"))
     elif feat == "xmlns-default-root":
         d.ns = ("default", "root")
     elif feat == "xmlns-default-all":
@@ -425,6 +439,8 @@ class InstanceGen:
         # only through the #FIXED default of the xmlns attribute is not in the parsed document's infoset
         if self.d.ns is not None:
             root.nsdecls["" if self.d.ns[0] == "default" else PFX] = self.d.namespace
+        for p, u in self.d.extra_ns.items():
+            root.nsdecls[p] = u
         return root
 
     def attr_value(self, a: AttDef, el_name: str) -> str | None:
